@@ -1,4 +1,5 @@
 ---- MODULE MCEnvDir0 ----
 EXTENDS EnvDir
 ShapesSmall == {<<"A">>, <<"A", "B">>, <<"B", "AB", "A">>, <<"A", "A">>}
+PairsSmall == {<<"A", "B">>, <<"A", "A">>}
 ====
